@@ -56,3 +56,38 @@ contract(OP + '.validate', props=['C19', 'C13'],
          loops={'0': dict(idx='i', inv=[
              "forall(lambda j: implies(0 <= j and j < i,"
              " len(elems(self._specific_operands_model._specific_operands)[j]._operands) == cfg_int(self._config['count'])))"])})
+
+# ---- instruction set: mnemonics are not keywords, macro names are distinct from instruction names -----------------
+IS = 'bespokeasm.assembler.model.instruction_set:InstructionSet.__init__'
+NEWOBJ = dict(assumed=True, may_raise={'SystemExit': 'True'}, modifies=[], no_frame_check=True,
+              reason='construction of one instruction / macro model from its own configuration entry (validated by its own kernels)')
+contract('bespokeasm.assembler.model.instruction:Instruction.__init__', props=['C19'],
+         params={'instruction_config': 'cfg', 'operand_set_collection': 'OperandSetCollection'},
+         ensures=['self._mnemonic == mnemonic'], **NEWOBJ)
+contract('bespokeasm.assembler.model.instruction_macro:InstructionMacro.__init__', props=['C19'],
+         params={'macro_config_list': 'cfg', 'operand_set_collection': 'OperandSetCollection'},
+         ensures=['self._mnemonic == mnemonic'], **NEWOBJ)
+
+NO_KW = ('forall(lambda kw: implies(kw in ASSEMBLER_KEYWORD_SET, not (str_lower(kw) in self.__dict)), types={"kw": "str"})')
+contract(IS, props=['C19'],
+         params={'instructions_config': 'cfg', 'macros_config': 'cfg?', 'operand_set_collection': 'OperandSetCollection'},
+         requires=['domain_empty(self.__dict)'],
+         may_raise={'SystemExit': 'True'},
+         ensures=[  # no accepted mnemonic -- instruction or macro -- is an assembler keyword, in any letter case
+             NO_KW],
+         modifies=['self._instructions_config', 'self._macros_config', 'self._instruction_mnemonics',
+                   'self._macro_mnemonics', 'self.__dict[*]', 'self._instruction_mnemonics[*]', 'self._macro_mnemonics[*]'],
+         allocates=True, no_frame_check=True,
+         locals={'macro_list': 'list[InstructionMacro]'},
+         loops={'0': dict(idx='i', allocates=True, modifies=['self.__dict[*]', 'self._instruction_mnemonics[*]'],
+                          inv=[NO_KW, 'self._instruction_mnemonics is entry(self._instruction_mnemonics)']),
+                '1': dict(idx='i', allocates=True, modifies=['macro_list[*]'],
+                          inv=[NO_KW,
+                               # macros collected so far: none is a keyword, none is an instruction name
+                               'forall(lambda j: implies(0 <= j and j < len(macro_list), '
+                               'not (elems(macro_list)[j]._mnemonic in self.__dict) and '
+                               'forall(lambda kw: implies(kw in ASSEMBLER_KEYWORD_SET, str_lower(kw) != elems(macro_list)[j]._mnemonic), types={"kw": "str"})))']),
+                '2': dict(idx='i', allocates=True, modifies=['self.__dict[*]', 'self._macro_mnemonics[*]'],
+                          inv=[NO_KW, 'macro_list is entry(macro_list)', 'self._macro_mnemonics is entry(self._macro_mnemonics)',
+                               'forall(lambda j: implies(i <= j and j < len(macro_list), '
+                               'forall(lambda kw: implies(kw in ASSEMBLER_KEYWORD_SET, str_lower(kw) != elems(macro_list)[j]._mnemonic), types={"kw": "str"})))'])})
